@@ -68,7 +68,11 @@ fn write_project(p: &Project, rng: &mut Rng, identity: bool) -> Vec<String> {
   p.config(Some(&json!({"utilDirs": ["utils"], "testConfigs": [{"testDir": "tests"}],
     "languageGlobs": {"javascript": ["*.x"], "typescript": ["*.x"], "tsx": ["*.x"], "css": ["*.x"]}})));
   // rule files: names decide the file order
-  let names = if identity { vec!["a.yml", "b.yml", "c.yml"] } else { permute(&["a.yml", "b.yml", "c.yml"], rng) };
+  let names = if identity { vec!["a.yml", "b.yml", "c.yml", "d.yml"] } else { permute(&["a.yml", "b.yml", "c.yml", "d.yml"], rng) };
+  // a second fixable rule that matches the very nodes r1 matches: which of the two fixes `-U` applies must not
+  // depend on the order in which the rule files are read
+  let r5 = r#"{"id": "r5", "language": "JavaScript", "severity": "warning", "message": "other", "rule": {"pattern": "foo($A, $B)"}, "fix": "other($B)"}"#;
+  p.write(&format!("rules/{}", names[3]), r5.as_bytes());
   let r2 = r#"{"id": "r2", "language": "JavaScript", "severity": "error", "message": "g", "rule": {"all": [{"pattern": "$F(1)"}, {"matches": "gA"}]}, "fix": "one($F)"}"#;
   let r3 = r#"{"id": "r3", "language": "JavaScript", "severity": "hint", "message": "baz $A", "rule": {"pattern": "baz($A)"}}"#;
   let r1 = rule_r1(rng, identity);
@@ -145,9 +149,14 @@ pub fn drive(seed: u64, out: &str, thorough: bool) {
       let s2 = String::from_utf8_lossy(&p.read("tests/__snapshots__/r2-snapshot.yml")).to_string();
       snaps.push(json!({"update_exit": up.code, "verify_exit": again.code, "r1": s1, "r2": s2}));
     }
+    // the fixes that `scan -U` applies (several rules fix the same nodes)
+    let up = run_sgv(&["scan", "-U"], &p.root, None, 60, &[]);
+    let updated = json!({"exit": up.code, "one": String::from_utf8_lossy(&p.read("src/one.js")).to_string(),
+                         "two": String::from_utf8_lossy(&p.read("src/two.js")).to_string()});
     p.remove();
-    json!({"id": format!("perm{perm}"), "perm": perm, "rule_files": names, "runs": runs, "snaps": snaps,
-      "graphs": {"utils": {"uA": ["uB"], "uB": ["uC"], "uC": [], "uD": ["uA", "uC"]},
+    json!({"id": format!("perm{perm}"), "perm": perm, "rule_files": names, "runs": runs, "snaps": snaps, "updated": updated,
+      "graphs": {"utils": {"uA": ["uB"], "uB": ["uC"], "uC": [], "uD": ["uA", "uC"], "uE": ["uC", "uB"], "uF": ["uC", "uG"], "uG": ["uH"], "uH": []},
+                 "utils2": {"kE": ["kC", "kB"], "kC": [], "kB": ["kC"]},
                  "transform": {"X": ["Y"], "Y": ["Z"], "Z": ["A"], "W": ["B"]},
                  "globals": {"gA": ["gB"], "gB": []}}})
   });
